@@ -1,6 +1,7 @@
 //! C05: a panicking element destructor never causes a second drop or a stale read.
 //! Case: [N, bomb(-1 none), ops..., fin]; ops: 0 next, 1 next_back, 2 n nth, 3 n nth_back;
-//! fin: 20 drop(iter), 21 count, 22 last.
+//! fin: 20 drop(iter), 21 count, 22 last, 27 `it.clone_from(&other)` (the old contents are released while the
+//! iterator stays the caller's: observed like the drop of the old contents, then the iterator is dropped).
 //! OBS per op: result (0 | 1 id | 6 panicked) then k id1..idk = identities dropped during the op (sorted).
 use generic_array::sequence::GenericSequence;
 use generic_array::typenum::*;
@@ -144,6 +145,7 @@ fn run<N: ArrayLength>(case: &[i128]) -> (Vec<i128>, Vec<String>) {
         drops(&mut out, start, &mut dropped);
     }
     let start = track::log_len();
+    let mut fin27_done = false;
     match fin {
         21 => match catch(move || it.count()) {
             Ok(k) => {
@@ -153,12 +155,34 @@ fn run<N: ArrayLength>(case: &[i128]) -> (Vec<i128>, Vec<String>) {
             Err(_) => out.push(6),
         },
         22 => res(&mut out, catch(move || it.last()), &mut moved),
+        27 => {
+            track::arm_drop(None);
+            let src = GenericArray::<Tr, N>::generate(|i| Tr::new(500 + i as i64)).into_iter();
+            track::arm_drop(if bomb >= 0 { Some(bomb) } else { None });
+            let start27 = track::log_len();
+            match catch(std::panic::AssertUnwindSafe(|| it.clone_from(&src))) {
+                Ok(()) => out.push(5),
+                Err(_) => out.push(6),
+            }
+            drops(&mut out, start27, &mut dropped);
+            track::arm_drop(None);
+            // whatever the iterator holds now is released by its owner: none of the OLD elements may be among it
+            let after = track::log_len();
+            let _ = catch(move || drop(it));
+            dropped.extend(track::drops_sorted(&track::log_from(after)).into_iter().filter(|id| *id < n));
+            for e in src {
+                std::mem::forget(e);
+            }
+            fin27_done = true;
+        }
         _ => match catch(move || drop(it)) {
             Ok(()) => out.push(5),
             Err(_) => out.push(6),
         },
     }
-    drops(&mut out, start, &mut dropped);
+    if !fin27_done {
+        drops(&mut out, start, &mut dropped);
+    }
     track::arm_drop(None);
     // direct oracle: nothing released twice, nothing handed out after its destructor ran
     let mut oracle = vec![];
@@ -223,7 +247,7 @@ fn main() {
                 }
                 for op in &ops {
                     for bomb in -1..(n as i128) {
-                        for fin in [20, 21, 22] {
+                        for fin in [20, 21, 22, 27] {
                             let mut case = vec![n as i128, bomb];
                             for _ in 0..f {
                                 case.push(0);
